@@ -245,3 +245,8 @@ void do_catch (const char *p, unsigned short new_pc_offset) {
     }
   pop_context (&econ);
 }
+
+#ifdef NEOLITH_VERIF
+/* verification hook (H2): read-only view of the sticky limit-error state */
+int verif_error_state (void) { return error_state; }
+#endif
